@@ -107,6 +107,7 @@ struct lifetime_monitor : public expectation
         if (*pp == this) { *pp = next_monitor; break; }
       }
     }
+    sequences->retire(); // while the lock is held
   }
 
   lifetime_monitor& operator=(lifetime_monitor const&) = delete;
